@@ -1,8 +1,752 @@
-//! Controller (Sign) generators: C08–C11.
+//! Controller (Sign) generators and oracles: C08–C11.
+#![allow(dead_code)]
+
+use flipdot_core::{Address, ChunkCount, Message, Offset, Operation, Page, PageFlipStyle, PageId, SignType, State};
+
+use super::vsign::{sd, tiny_cfg};
+use crate::implside::{ctrl_run, parse_reply, CtrlRun, ReplyTok};
 use crate::util::*;
 use crate::Out;
 
-pub fn c08(_thorough: bool, _rng: &mut Rng, _out: &mut Out) {}
-pub fn c09(_thorough: bool, _rng: &mut Rng, _out: &mut Out) {}
-pub fn c10(_thorough: bool, _rng: &mut Rng, _out: &mut Out) {}
-pub fn c11(_thorough: bool, _rng: &mut Rng, _out: &mut Out) {}
+/// The reply alphabet of C10 for a controller at address `a`.
+pub fn alphabet(a: u16) -> Vec<String> {
+    let f = a ^ 1;
+    let mut v = vec![];
+    for ad in [a, f] {
+        for s in 0..13 {
+            v.push(format!("RS,{:04X},{}", ad, s));
+        }
+        for o in 0..6 {
+            v.push(format!("AK,{:04X},{}", ad, o));
+        }
+    }
+    v.push("none".into());
+    v.push(format!("GB,{:04X}", a));
+    v.push(format!("HE,{:04X}", a));
+    v.push(format!("UN,{:04X},07,-", a));
+    v.push("SD,0000,00".into());
+    v.push("CS,0001".into());
+    v.push(format!("RS,{:04X},2", a ^ 0x8000));
+    v.push("bus".into());
+    v
+}
+
+fn items_tok(items: &[Vec<u8>]) -> String {
+    if items.is_empty() {
+        "-".into()
+    } else {
+        items.iter().map(|i| format!("h:{}", to_hex(i))).collect::<Vec<_>>().join(";")
+    }
+}
+
+pub struct Conv {
+    pub op: String,
+    pub t: usize,
+    pub a: u16,
+    pub items: Vec<Vec<u8>>,
+    pub items_tok: String,
+    pub script: Vec<String>,
+    pub run: CtrlRun,
+}
+
+fn run_conv(op: &str, t: usize, a: u16, items: &[Vec<u8>], itok: &str, script: &[String]) -> Conv {
+    let toks: Vec<ReplyTok> = script.iter().map(|s| parse_reply(s).expect("reply token")).collect();
+    let run = ctrl_run(op, TYPES[t], a, items, &toks).expect("ctrl_run");
+    Conv {
+        op: op.into(),
+        t,
+        a,
+        items: items.to_vec(),
+        items_tok: itok.into(),
+        script: script.to_vec(),
+        run,
+    }
+}
+
+fn conv_line(c: &Conv) -> String {
+    format!("ctrl {} {} {:04X} {} | {}", c.op, c.t, c.a, c.items_tok, c.script.join(" ")).trim_end().to_string()
+}
+
+// ---------------------------------------------------------------------------------------------
+// The documented protocol as an explicit state machine (reference for C10).
+
+fn rs(a: u16, s: State) -> String {
+    format!("RS,{:04X},{}", a, state_idx(s))
+}
+fn ro(a: u16, o: Operation) -> String {
+    format!("RO,{:04X},{}", a, op_idx(o))
+}
+fn ak(a: u16, o: Operation) -> String {
+    format!("AK,{:04X},{}", a, op_idx(o))
+}
+
+struct Ref<'s> {
+    script: &'s [String],
+    pos: usize,
+    trace: Vec<String>,
+}
+enum Stop {
+    Proto,
+    Bus,
+    Starved,
+}
+impl<'s> Ref<'s> {
+    fn ask(&mut self, m: String) -> Result<String, Stop> {
+        self.trace.push(m);
+        if self.pos >= self.script.len() {
+            return Err(Stop::Starved);
+        }
+        let r = self.script[self.pos].clone();
+        self.pos += 1;
+        if r == "bus" {
+            return Err(Stop::Bus);
+        }
+        Ok(r)
+    }
+    fn expect(&mut self, m: String, want: &str) -> Result<(), Stop> {
+        let r = self.ask(m)?;
+        if r == want {
+            Ok(())
+        } else {
+            Err(Stop::Proto)
+        }
+    }
+    fn transfer(&mut self, a: u16, items: &[Vec<u8>], op: Operation, succ: State, fail: State) -> Result<(), Stop> {
+        for attempt in 1..=3 {
+            self.expect(ro(a, op), &ak(a, op))?;
+            let mut n: u32 = 0;
+            for it in items {
+                let mut off = 0usize;
+                while off < it.len() {
+                    let end = (off + 16).min(it.len());
+                    self.expect(format!("SD,{:04X},{}", off % 65536, to_hex(&it[off..end])), "none")?;
+                    n += 1;
+                    off = end;
+                }
+            }
+            self.expect(format!("CS,{:04X}", n % 65536), "none")?;
+            let r = self.ask(format!("QS,{:04X}", a))?;
+            if r == rs(a, succ) {
+                return Ok(());
+            }
+            if r == rs(a, fail) && attempt < 3 {
+                continue;
+            }
+            return Err(Stop::Proto);
+        }
+        Err(Stop::Proto)
+    }
+    fn configure(&mut self, a: u16, t: SignType) -> Result<(), Stop> {
+        let r = self.ask(format!("HE,{:04X}", a))?;
+        let finish = |me: &mut Ref<'s>| -> Result<(), Stop> {
+            me.expect(ro(a, Operation::FinishReset), &ak(a, Operation::FinishReset))?;
+            me.expect(format!("HE,{:04X}", a), &rs(a, State::Unconfigured))
+        };
+        if r == rs(a, State::Unconfigured) {
+        } else if r == rs(a, State::ReadyToReset) {
+            finish(self)?;
+        } else {
+            self.expect(ro(a, Operation::StartReset), &ak(a, Operation::StartReset))?;
+            self.expect(format!("HE,{:04X}", a), &rs(a, State::ReadyToReset))?;
+            finish(self)?;
+        }
+        self.transfer(a, &[t.to_bytes().to_vec()], Operation::ReceiveConfig, State::ConfigReceived, State::ConfigFailed)
+    }
+    fn switch(&mut self, a: u16, target: State, trigger: State, op: Operation) -> Result<(), Stop> {
+        loop {
+            let r = self.ask(format!("QS,{:04X}", a))?;
+            if r == rs(a, State::ShowingPages) || r == rs(a, target) {
+                return Ok(());
+            } else if r == rs(a, trigger) {
+                self.expect(ro(a, op), &ak(a, op))?;
+            } else if r == rs(a, State::PageLoadInProgress) || r == rs(a, State::PageShowInProgress) {
+            } else {
+                return Err(Stop::Proto);
+            }
+        }
+    }
+}
+
+/// What the documented protocol prescribes for `op` against `script`: (trace, outcome).
+pub fn proto_ref(op: &str, t: SignType, a: u16, items: &[Vec<u8>], script: &[String]) -> (Vec<String>, String) {
+    let mut r = Ref {
+        script,
+        pos: 0,
+        trace: vec![],
+    };
+    let res: Result<String, Stop> = (|| {
+        match op {
+            "cfg" => r.configure(a, t).map(|_| "ok".to_string()),
+            "cfn" => {
+                let x = r.ask(format!("HE,{:04X}", a))?;
+                let ready = [State::ConfigReceived, State::ShowingPages, State::PageLoaded, State::PageShowInProgress, State::PageShown, State::PageLoadInProgress];
+                if ready.iter().any(|s| x == rs(a, *s)) {
+                    Ok("ok".to_string())
+                } else {
+                    r.configure(a, t).map(|_| "ok".to_string())
+                }
+            }
+            "snd" => {
+                r.transfer(a, items, Operation::ReceivePixels, State::PixelsReceived, State::PixelsFailed)?;
+                r.expect(format!("PC,{:04X}", a), "none")?;
+                let x = r.ask(format!("QS,{:04X}", a))?;
+                Ok(if x == rs(a, State::ShowingPages) { "ok:auto".to_string() } else { "ok:manual".to_string() })
+            }
+            "shw" => r.switch(a, State::PageShown, State::PageLoaded, Operation::ShowLoadedPage).map(|_| "ok".to_string()),
+            "nxt" => r.switch(a, State::PageLoaded, State::PageShown, Operation::LoadNextPage).map(|_| "ok".to_string()),
+            "off" => r.expect(format!("GB,{:04X}", a), "none").map(|_| "ok".to_string()),
+            _ => Ok("bad".to_string()),
+        }
+    })();
+    let outcome = match res {
+        Ok(s) => s,
+        Err(Stop::Proto) => "proto".into(),
+        Err(Stop::Bus) => "bus".into(),
+        Err(Stop::Starved) => "starved".into(),
+    };
+    (r.trace, outcome)
+}
+
+// ---------------------------------------------------------------------------------------------
+// Oracles on one conversation
+
+/// C10: exactly the prescribed messages and outcome.
+fn oracle_c10(c: &Conv) -> Option<String> {
+    if c.items.iter().map(|i| i.len()).sum::<usize>() > 60_000 {
+        return None; // the u16 counters of the real controller are a recorded domain limit
+    }
+    let (tr, oc) = proto_ref(&c.op, TYPES[c.t], c.a, &c.items, &c.script);
+    if tr != c.run.trace {
+        let k = tr.iter().zip(c.run.trace.iter()).position(|(x, y)| x != y).unwrap_or(tr.len().min(c.run.trace.len()));
+        return Some(format!(
+            "C10 message #{} differs from the documented protocol: sent {:?}, prescribed {:?} (trace lengths {} vs {})",
+            k,
+            c.run.trace.get(k),
+            tr.get(k),
+            c.run.trace.len(),
+            tr.len()
+        ));
+    }
+    if oc != c.run.outcome {
+        return Some(format!("C10 outcome {} but the documented protocol prescribes {}", c.run.outcome, oc));
+    }
+    None
+}
+
+/// C09: transfers complete, ordered, offset, counted.
+fn oracle_c09(c: &Conv) -> Option<String> {
+    let (rop, items): (Operation, Vec<Vec<u8>>) = match c.op.as_str() {
+        "cfg" | "cfn" => (Operation::ReceiveConfig, vec![TYPES[c.t].to_bytes().to_vec()]),
+        "snd" => (Operation::ReceivePixels, c.items.clone()),
+        _ => return None,
+    };
+    let a = c.a;
+    let msgs = &c.run.msgs;
+    let is_req = |m: &Message<'_>| matches!(m, Message::RequestOperation(Address(x), o) if *x == a && *o == rop);
+    let mut i = 0;
+    // skip the part before the first transfer request
+    while i < msgs.len() && !is_req(&msgs[i]) {
+        if matches!(msgs[i], Message::SendData(..) | Message::DataChunksSent(_)) {
+            return Some("C09 data sent before any receive request".into());
+        }
+        i += 1;
+    }
+    let mut expected: Vec<Message<'static>> = vec![];
+    let mut nchunks: u64 = 0;
+    for it in &items {
+        for (k, ch) in it.chunks(16).enumerate() {
+            expected.push(sd(((k * 16) % 65536) as u16, ch));
+            nchunks += 1;
+        }
+    }
+    if nchunks >= 65536 {
+        return None;
+    }
+    expected.push(Message::DataChunksSent(ChunkCount(nchunks as u16)));
+    expected.push(Message::QueryState(Address(a)));
+    while i < msgs.len() && is_req(&msgs[i]) {
+        // the request must have been acknowledged by the own address before any data follows
+        let acked = c.script.get(i).map(|r| *r == ak(a, rop)).unwrap_or(false);
+        i += 1;
+        let mut k = 0;
+        while i < msgs.len() && k < expected.len() {
+            if msgs[i] != expected[k] {
+                // the segment must be a prefix of the expected attempt
+                if is_req(&msgs[i]) || k == expected.len() {
+                    break;
+                }
+                return Some(format!(
+                    "C09 attempt message {} is {} but the complete/ordered/offset/counted transfer requires {}",
+                    k,
+                    show_msg(&msgs[i]),
+                    show_msg(&expected[k])
+                ));
+            }
+            if !acked {
+                return Some("C09 data or count sent although the receive request was not acknowledged".into());
+            }
+            i += 1;
+            k += 1;
+        }
+        if i < msgs.len() && k < expected.len() {
+            return Some("C09 a transfer attempt stopped early and something else followed".into());
+        }
+    }
+    // after the transfers nothing but PixelsComplete / QueryState may follow
+    while i < msgs.len() {
+        match &msgs[i] {
+            Message::PixelsComplete(_) | Message::QueryState(_) => {}
+            m => return Some(format!("C09 unexpected {} after the transfer", show_msg(m))),
+        }
+        i += 1;
+    }
+    None
+}
+
+/// C11: safety invariants, checked without a reference conversation.
+fn oracle_c11(c: &Conv, rerun: bool) -> Option<String> {
+    let a = c.a;
+    let msgs = &c.run.msgs;
+    let (rop, succ, fail) = match c.op.as_str() {
+        "cfg" | "cfn" => (Some(Operation::ReceiveConfig), State::ConfigReceived, State::ConfigFailed),
+        "snd" => (Some(Operation::ReceivePixels), State::PixelsReceived, State::PixelsFailed),
+        _ => (None, State::Unconfigured, State::Unconfigured),
+    };
+    // own address only
+    for m in msgs {
+        let ad = match m {
+            Message::Hello(Address(x))
+            | Message::QueryState(Address(x))
+            | Message::RequestOperation(Address(x), _)
+            | Message::PixelsComplete(Address(x))
+            | Message::Goodbye(Address(x))
+            | Message::ReportState(Address(x), _)
+            | Message::AckOperation(Address(x), _) => Some(*x),
+            _ => None,
+        };
+        if let Some(x) = ad {
+            if x != a {
+                return Some(format!("C11 emitted {} which carries address {:04X}, not its own {:04X}", show_msg(m), x, a));
+            }
+        }
+    }
+    // fail-stop (local rules) and bus errors
+    for (i, m) in msgs.iter().enumerate() {
+        let reply = match c.script.get(i) {
+            Some(r) => r.clone(),
+            None => break,
+        };
+        let last = i + 1 == msgs.len();
+        if reply == "bus" {
+            if !last || c.run.outcome != "bus" {
+                return Some(format!("C11 bus error on message #{} but the controller went on / returned {}", i, c.run.outcome));
+            }
+            continue;
+        }
+        let allowed = match m {
+            Message::RequestOperation(_, o) => reply == ak(a, *o),
+            Message::SendData(..) | Message::DataChunksSent(_) | Message::PixelsComplete(_) | Message::Goodbye(_) => reply == "none",
+            _ => true,
+        };
+        if !allowed && (!last || c.run.outcome != "proto") {
+            return Some(format!("C11 reply {} to {} is not allowed by the protocol but the controller went on / returned {}", reply, show_msg(m), c.run.outcome));
+        }
+    }
+    if let Some(rop) = rop {
+        let reqs: Vec<usize> = msgs
+            .iter()
+            .enumerate()
+            .filter(|(_, m)| matches!(m, Message::RequestOperation(_, o) if *o == rop))
+            .map(|(i, _)| i)
+            .collect();
+        if reqs.len() > 3 {
+            return Some(format!("C11 {} transfer attempts in one call", reqs.len()));
+        }
+        for k in 1..reqs.len() {
+            // the message before the retry is the QueryState whose reply must be the own 'failed'
+            let q = reqs[k] - 1;
+            let ok = matches!(msgs[q], Message::QueryState(_)) && c.script.get(q) == Some(&rs(a, fail));
+            if !ok {
+                return Some(format!("C11 retried although the reply before was {:?}, not the own 'failed' report", c.script.get(q)));
+            }
+        }
+        if c.run.outcome.starts_with("ok") && (c.op == "cfg" || c.op == "snd" || (c.op == "cfn" && !reqs.is_empty())) {
+            // the state report that concluded the final attempt
+            let lastreq = *reqs.last()?;
+            let q = (lastreq..msgs.len()).find(|i| matches!(msgs[*i], Message::QueryState(_)));
+            let confirmed = q.and_then(|q| c.script.get(q)).map(|r| *r == rs(a, succ)).unwrap_or(false);
+            if !confirmed {
+                return Some("C11 success returned although the concluding state report was not the own 'received'".into());
+            }
+        }
+    }
+    // a reply carrying another address is never treated as its own: replacing it by an unrelated
+    // frame must not change the conversation
+    if rerun {
+        let mut changed = false;
+        let s2: Vec<String> = c
+            .script
+            .iter()
+            .map(|r| {
+                let p: Vec<&str> = r.split(',').collect();
+                if (p[0] == "RS" || p[0] == "AK") && p.len() >= 2 && parse_u16(p[1]) != Some(a) {
+                    changed = true;
+                    format!("UN,{:04X},07,-", a)
+                } else {
+                    r.clone()
+                }
+            })
+            .collect();
+        if changed {
+            let c2 = run_conv(&c.op, c.t, c.a, &c.items, &c.items_tok, &s2);
+            if c2.run.trace != c.run.trace || c2.run.outcome != c.run.outcome {
+                return Some("C11 a reply carrying another address influenced the conversation (differs from an unrelated frame in its place)".into());
+            }
+        }
+    }
+    None
+}
+
+// ---------------------------------------------------------------------------------------------
+// Reply-tree enumeration
+
+struct Explore<'o> {
+    out: &'o mut Out,
+    prop: String,
+    max_len: usize,
+    budget: usize,
+}
+
+impl<'o> Explore<'o> {
+    fn visit(&mut self, c: &Conv) {
+        let line = conv_line(c);
+        let nt = c.run.trace.len() >= 2;
+        let i = self.out.case(line, nt);
+        self.out.stat(&format!("ctrl.{}.{}", c.op, c.run.outcome));
+        if c.run.outcome == "PANIC" {
+            self.out.fail(i, format!("{} controller panicked", self.prop));
+            return;
+        }
+        let f = match self.prop.as_str() {
+            "C09" => oracle_c09(c),
+            "C10" => oracle_c10(c),
+            "C11" => oracle_c11(c, true),
+            _ => None,
+        };
+        if let Some(f) = f {
+            self.out.fail(i, f);
+        }
+    }
+
+    /// Breadth-first: extend every script that was consumed entirely with every alphabet symbol.
+    /// `recurse(script)` limits which continuing scripts are expanded further.
+    fn tree(&mut self, op: &str, t: usize, a: u16, items: &[Vec<u8>], recurse: &dyn Fn(&[String]) -> bool) {
+        let alpha = alphabet(a);
+        let itok = items_tok(items);
+        let mut frontier: Vec<Vec<String>> = vec![vec![]];
+        let root = run_conv(op, t, a, items, &itok, &[]);
+        self.visit(&root);
+        let mut runs = 0usize;
+        while let Some(script) = frontier.pop() {
+            if script.len() >= self.max_len {
+                continue;
+            }
+            for sym in &alpha {
+                if runs >= self.budget {
+                    self.out.stat("ctrl.budget-exhausted");
+                    return;
+                }
+                runs += 1;
+                let mut s2 = script.clone();
+                s2.push(sym.clone());
+                let c = run_conv(op, t, a, items, &itok, &s2);
+                self.visit(&c);
+                if c.run.outcome == "starved" && recurse(&s2) {
+                    frontier.push(s2);
+                }
+            }
+        }
+    }
+}
+
+fn small_page(id: u8, w: u32, h: u32, rng: &mut Rng) -> Vec<u8> {
+    let mut p = Page::new(PageId(id), w, h);
+    if w > 0 && h > 0 {
+        for _ in 0..5 {
+            p.set_pixel(rng.below(w as u64) as u32, rng.below(h as u64) as u32, true);
+        }
+    }
+    p.as_bytes().to_vec()
+}
+
+fn explore_all(prop: &str, thorough: bool, rng: &mut Rng, out: &mut Out) {
+    let addrs: Vec<u16> = if thorough { vec![0, 3, 0x80, 0xFFFF] } else { vec![3, 0xFFFF] };
+    let types: Vec<usize> = if thorough { vec![2, 0, 6, 10] } else { vec![2, 10] };
+    let budget = if thorough { 600_000 } else { 80_000 };
+    let mut ex = Explore {
+        out,
+        prop: prop.into(),
+        max_len: 64,
+        budget,
+    };
+    for &a in &addrs {
+        for &t in &types {
+            ex.max_len = 64;
+            ex.tree("cfg", t, a, &[], &|_| true);
+            // configure-if-needed: everything at the first reply; below it the complete tree only for
+            // three representative first replies (configure itself is explored completely above)
+            let reps = [format!("RS,{:04X},0", a), "none".to_string(), format!("RS,{:04X},2", a ^ 1)];
+            ex.tree("cfn", t, a, &[], &|s: &[String]| s.len() >= 2 || reps.contains(&s[0]));
+            if !thorough {
+                break;
+            }
+        }
+        ex.max_len = 7;
+        ex.tree("shw", 2, a, &[], &|_| true);
+        ex.tree("nxt", 2, a, &[], &|_| true);
+        ex.max_len = 4;
+        ex.tree("off", 2, a, &[], &|_| true);
+        // send_pages: page lists of 0..3 pages
+        ex.max_len = 64;
+        let p16 = small_page(1, 12, 8, rng); // 16 bytes: one chunk
+        let p96a = small_page(2, 90, 7, rng); // 96 bytes: six chunks
+        let p96b = small_page(3, 90, 7, rng);
+        let lists: Vec<Vec<Vec<u8>>> = vec![vec![], vec![p16.clone()], vec![p96a.clone(), p96b.clone()], vec![p16.clone(), p96a.clone(), p16.clone()]];
+        for (k, l) in lists.iter().enumerate() {
+            if !thorough && k == 3 && a != 3 {
+                continue;
+            }
+            ex.tree("snd", 2, a, l, &|_| true);
+        }
+    }
+    // large and odd-sized items: no tree, specific scripts (happy path, failure report then retry,
+    // a wrong reply at a few positions)
+    let sizes: Vec<usize> = if thorough { vec![336, 4096, 65536, 65552] } else { vec![336, 4096] };
+    for sz in sizes {
+        let a = 3u16;
+        let item = format!("g:{}:{}", sz, rng.below(100));
+        let items = parse_items(&item).unwrap();
+        let n = (sz + 15) / 16;
+        let happy = |fails: usize| -> Vec<String> {
+            let mut s = vec![];
+            for k in 0..=fails {
+                s.push(ak(a, Operation::ReceivePixels));
+                for _ in 0..n {
+                    s.push("none".into());
+                }
+                s.push("none".into());
+                s.push(if k < fails { rs(a, State::PixelsFailed) } else { rs(a, State::PixelsReceived) });
+            }
+            s.push("none".into());
+            s.push(rs(a, State::PageLoaded));
+            s
+        };
+        let mut scripts = vec![happy(0), happy(1), happy(2), happy(3)];
+        for pos in [1usize, n / 2, n, n + 1] {
+            let mut s = happy(0);
+            if pos < s.len() {
+                s[pos] = format!("RS,{:04X},0", a);
+                scripts.push(s);
+            }
+        }
+        for s in scripts {
+            let c = run_conv("snd", 2, a, &items, &item, &s);
+            ex.visit(&c);
+        }
+    }
+}
+
+pub fn c09(thorough: bool, rng: &mut Rng, out: &mut Out) {
+    out.rule = "breadth-first enumeration of the reply tree of configure / configure-if-needed / send-pages (a script is extended by every one of the 46 reply symbols whenever the previous run consumed it entirely) for several addresses, sign types and page lists of 0..3 pages (16- and 96-byte pages), plus scripted runs with 336..65552-byte items incl. all retry paths; every recorded message sequence is parsed against the complete / ordered / offset / counted transfer shape; non-trivial = conversations with at least two messages; distinct = distinct case line".into();
+    out.exhaustive_note = "the reply tree is enumerated to the natural end of each operation over the finite alphabet (subject to the run budget reported in the distribution); addresses, types and page contents are sampled".into();
+    explore_all("C09", thorough, rng, out);
+}
+
+pub fn c10(thorough: bool, rng: &mut Rng, out: &mut Out) {
+    out.rule = "breadth-first enumeration of the reply tree (46 symbols: 13 states x own/foreign, 6 acks x own/foreign, none, goodbye, hello, unknown frame, SendData, DataChunksSent, far-foreign report, bus error) at every step of configure, configure-if-needed, send-pages, show, load-next (polling depth bounded by script length 7) and shut-down; each conversation is compared with an explicit state-machine port of the documented protocol and with the Lean model; non-trivial = conversations with at least two messages; distinct = distinct case line".into();
+    out.exhaustive_note = "exhaustive to the natural end of each operation over the alphabet, for the listed addresses / types / page lists, within the run budget reported in the distribution".into();
+    explore_all("C10", thorough, rng, out);
+}
+
+pub fn c11(thorough: bool, rng: &mut Rng, out: &mut Out) {
+    out.rule = "same reply-tree enumeration as C10; on every conversation the invariants are evaluated directly (success only after the own 'received' report; bus error / disallowed reply ends the conversation with the matching error; at most 3 attempts; retry only after the own 'failed' report; every addressed message carries the own address; replacing foreign-address replies by an unrelated frame changes nothing); non-trivial = conversations with at least two messages; distinct = distinct case line".into();
+    out.exhaustive_note = "as C10".into();
+    explore_all("C11", thorough, rng, out);
+}
+
+// ---------------------------------------------------------------------------------------------
+// C08: controller against real virtual signs, from any prior sign state
+
+fn prior_walk(rng: &mut Rng, a: u16) -> Vec<Message<'static>> {
+    // drive the sign at `a` into an arbitrary protocol state (incl. abandoned transfers)
+    let mut v: Vec<Message<'static>> = vec![];
+    let ad = Address(a);
+    let depth = rng.below(9);
+    if depth == 0 {
+        return v;
+    }
+    v.push(Message::RequestOperation(ad, Operation::ReceiveConfig));
+    if depth == 1 {
+        return v;
+    }
+    let t = *rng.pick(&TYPES);
+    let cfg = if rng.chance(70) { t.to_bytes().to_vec() } else { tiny_cfg(rng.range(1, 20) as u32, rng.range(1, 16) as u32, rng.chance(50)) };
+    v.push(sd(0, &cfg));
+    if depth == 2 {
+        return v;
+    }
+    v.push(Message::DataChunksSent(ChunkCount(if rng.chance(85) { 1 } else { 2 })));
+    if depth == 3 {
+        return v;
+    }
+    v.push(Message::RequestOperation(ad, Operation::ReceivePixels));
+    if depth == 4 {
+        return v;
+    }
+    let (w, h) = if cfg[0] == 4 { (cfg[5] as u32 + cfg[6] as u32 + cfg[7] as u32 + cfg[8] as u32, cfg[4] as u32) } else { (cfg[7] as u32, cfg[5] as u32) };
+    let page = Page::new(PageId(7), w, h);
+    let chunks: Vec<&[u8]> = page.as_bytes().chunks(16).collect();
+    let keep = if rng.chance(60) { chunks.len() } else { rng.below(chunks.len() as u64 + 1) as usize };
+    for (i, c) in chunks.iter().take(keep).enumerate() {
+        v.push(sd((i * 16) as u16, c));
+    }
+    if depth == 5 {
+        return v; // half-finished transfer
+    }
+    v.push(Message::DataChunksSent(ChunkCount(keep as u16)));
+    if depth == 6 {
+        return v;
+    }
+    v.push(Message::PixelsComplete(ad));
+    if depth == 7 {
+        if rng.chance(50) {
+            v.push(Message::RequestOperation(ad, Operation::ShowLoadedPage));
+        }
+        return v;
+    }
+    v.push(Message::RequestOperation(ad, Operation::StartReset));
+    v
+}
+
+pub fn c08(thorough: bool, rng: &mut Rng, out: &mut Out) {
+    out.rule = "for all 11 sign types x both flip styles x addresses across the 16-bit range: a prior-state walk (nothing, mid-configuration, configured as another type, abandoned / half-finished pixel transfer, pages loaded / shown, ready-to-reset) leaves the virtual sign in some protocol state; then configure (or configure-if-needed where its contract applies), send 0..3 pages with random pixels, show, load-next, send again, shut down through the real controller on the real virtual bus; each result and the sign's state / type / pages are checked directly and compared with the model's runOn; non-trivial = every case; distinct = distinct case line".into();
+    out.exhaustive_note = "types x styles complete; prior states, addresses and page contents sampled".into();
+    let reps = if thorough { 60 } else { 12 };
+    for rep in 0..reps {
+        for (ti, t) in TYPES.iter().enumerate() {
+            for style in [PageFlipStyle::Manual, PageFlipStyle::Automatic] {
+                let a: u16 = match rng.below(5) {
+                    0 => 0,
+                    1 => 0xFFFF,
+                    2 => rng.range(1, 126) as u16,
+                    _ => rng.next() as u16,
+                };
+                let other: u16 = a ^ 0x0101;
+                let two = rng.chance(40);
+                let signs = if two {
+                    format!("{},{:04X};M,{:04X}", style_tok(style), a, other)
+                } else {
+                    format!("{},{:04X}", style_tok(style), a)
+                };
+                let prior = prior_walk(rng, a);
+                let (w, h) = t.dimensions();
+                let npages = rng.below(4) as usize;
+                let mk = |rng: &mut Rng| -> String {
+                    if npages == 0 {
+                        return "-".into();
+                    }
+                    (0..npages).map(|k| format!("h:{}", to_hex(&small_page(k as u8 + rng.byte() % 4, w, h, rng)))).collect::<Vec<_>>().join(";")
+                };
+                let pages1 = mk(rng);
+                let pages2 = mk(rng);
+                let use_cfn = rep % 3 == 2;
+                let mut line = format!("e2e direct {}", signs);
+                for m in &prior {
+                    line.push(' ');
+                    line.push_str(&show_msg(m));
+                }
+                line.push_str(" |");
+                let at = format!("{:04X},{}", a, ti);
+                let first = if use_cfn { "cfn" } else { "cfg" };
+                line.push_str(&format!(" {},{},- snd,{},{} shw,{},- nxt,{},- shw,{},- snd,{},{} off,{},-", first, at, at, pages1, at, at, at, at, pages2, at));
+                let i = out.case(line, true);
+                out.stat(&format!("e2e.prior-len.{}", prior.len().min(9)));
+                // direct oracle on the implementation's output
+                let o = out.impls[i].clone();
+                let parts: Vec<&str> = o.split(" | ").collect();
+                if parts.len() != 2 {
+                    out.fail(i, format!("C08 run did not complete: {}", &o[..o.len().min(80)]));
+                    continue;
+                }
+                let res: Vec<&str> = parts[0].split(' ').collect();
+                let want_style = if style == PageFlipStyle::Manual { "ok:manual" } else { "ok:auto" };
+                let want = ["ok", want_style, "ok", "ok", "ok", want_style, "ok"];
+                // configure-if-needed trusts a sign that reports itself ready: its contract covers prior
+                // states that are not ready-to-receive or that record the same type; the direct oracle
+                // is applied only to `configure` (the model comparison covers both)
+                if !use_cfn && res != want {
+                    out.fail(i, format!("C08 controller results {:?}, expected {:?}", res, want));
+                }
+                // final: after shut_down the sign is blank
+                let fin: Vec<&str> = parts[1].split(';').collect();
+                if !use_cfn && !fin[0].starts_with("0/-/0/") {
+                    out.fail(i, format!("C08 after shut_down the sign is {}", fin[0]));
+                }
+            }
+        }
+    }
+    // step-by-step variant: observe the sign after configure and after send_pages
+    let reps2 = if thorough { 30 } else { 6 };
+    for _ in 0..reps2 {
+        for (ti, t) in TYPES.iter().enumerate() {
+            for style in [PageFlipStyle::Manual, PageFlipStyle::Automatic] {
+                let a: u16 = rng.next() as u16;
+                let prior = prior_walk(rng, a);
+                let (w, h) = t.dimensions();
+                let npages = rng.below(4) as usize;
+                let pages: Vec<Vec<u8>> = (0..npages).map(|k| small_page(k as u8, w, h, rng)).collect();
+                let ptok = items_tok(&pages);
+                let mut head = format!("e2e direct {},{:04X}", style_tok(style), a);
+                for m in &prior {
+                    head.push(' ');
+                    head.push_str(&show_msg(m));
+                }
+                head.push_str(" |");
+                let at = format!("{:04X},{}", a, ti);
+                // after configure: ConfigReceived (2), type ti, no pages
+                let i = out.case(format!("{} cfg,{},-", head, at), true);
+                if out.impls[i] != format!("ok | 2/{}/0/{}", ti, FNV_INIT) {
+                    out.fail(i, format!("C08 after configure from a prior state the sign is '{}'", out.impls[i]));
+                }
+                // after send_pages: exactly those pages
+                let i = out.case(format!("{} cfg,{},- snd,{},{}", head, at, at, ptok), true);
+                let mut hsh = FNV_INIT;
+                for p in &pages {
+                    hsh = fnv_nat(hsh, w as u64);
+                    hsh = fnv_nat(hsh, h as u64);
+                    hsh = fnv_nat(hsh, p.len() as u64);
+                    for b in p {
+                        hsh = fnv_byte(hsh, *b);
+                    }
+                }
+                let (st, res) = if style == PageFlipStyle::Manual { (7, "ok:manual") } else { (11, "ok:auto") };
+                let want = format!("ok {} | {}/{}/{}/{}", res, st, ti, npages, hsh);
+                if out.impls[i] != want {
+                    out.fail(i, format!("C08 after send_pages the sign is '{}', expected '{}'", out.impls[i], want));
+                }
+                // show / load-next
+                let i = out.case(format!("{} cfg,{},- snd,{},{} shw,{},-", head, at, at, ptok, at), true);
+                let st2 = if style == PageFlipStyle::Manual { 9 } else { 11 };
+                if !out.impls[i].contains(&format!("| {}/{}/{}/", st2, ti, npages)) || !out.impls[i].starts_with(&format!("ok {} ok |", res)) {
+                    out.fail(i, format!("C08 after show_loaded_page: '{}'", out.impls[i]));
+                }
+                let i = out.case(format!("{} cfg,{},- snd,{},{} shw,{},- nxt,{},-", head, at, at, ptok, at, at), true);
+                let st3 = if style == PageFlipStyle::Manual { 7 } else { 11 };
+                if !out.impls[i].contains(&format!("| {}/{}/{}/", st3, ti, npages)) || !out.impls[i].starts_with(&format!("ok {} ok ok |", res)) {
+                    out.fail(i, format!("C08 after load_next_page: '{}'", out.impls[i]));
+                }
+            }
+        }
+    }
+    let _ = Offset(0);
+}
